@@ -331,7 +331,8 @@ pub fn run(p: &Params) -> Report {
     }
     let n = p.budget(6_000, 400_000);
     for i in 0..n {
-        scenario(p.shard_seed(0x20_0000 + i), &mut rep);
+        let seed = p.shard_seed(0x20_0000 + i);
+        crate::util::guarded(&mut rep, seed, |rep| scenario(seed, rep));
     }
     let m = p.budget(48, 3_000);
     for i in 0..m {
